@@ -93,16 +93,28 @@ func c09RunFeed(c c09FeedCase) (sig, msg, depth string) {
 		}
 	}
 	var hsErr error
-	p := vfRecover(func() {
-		hsErr = cn.Handshake()
-		buf := make([]byte, 4096)
-		for i := 0; i < 100000; i++ {
-			_, err := cn.Read(buf)
-			if err != nil {
-				break
+	var p string
+	done := make(chan struct{})
+	go func() {
+		defer close(done)
+		p = vfRecover(func() {
+			hsErr = cn.Handshake()
+			buf := make([]byte, 4096)
+			for i := 0; i < 100000; i++ {
+				_, err := cn.Read(buf)
+				if err != nil {
+					break
+				}
 			}
-		}
-	})
+		})
+	}()
+	// the transport never blocks: a run takes milliseconds. Not finished after 30 s = the endpoint
+	// loops without consuming input.
+	select {
+	case <-done:
+	case <-time.After(30 * time.Second):
+		return "spin-or-hang", "the endpoint neither finished nor failed within 30 s on a transport that never blocks: it loops without consuming input", ""
+	}
 	if p != "" {
 		return "panic", p, ""
 	}
